@@ -31,6 +31,9 @@ def rand_history(rng, cfg, s, n, buf_extra, p_full=0.2, p_toggle=0.0, p_swap=0.0
     pc_user = [m for m in s['pc_extra']]
     pcargs = lg.rand_struct_vals(rng, {'minal': 8, 'members': pc_user}, maxlen) if pc_user else []
     buf_bytes = (lg.header_bits(cfg, s, pcargs) + 7) // 8 + buf_extra
+    if s.get('small_sizes'):
+        # every buffer of this history (swaps go up to 2 * buf_bytes) must fit the 13-bit total / content size fields
+        buf_bytes = min(buf_bytes, 500)
     calls = []
     opened = False
     for i in range(n):
